@@ -462,3 +462,82 @@ Proof.
   - unfold pack_req. now apply pack_msg_plain.
   - rewrite <- (app_nil_r (plain_bytes _)). now apply unpack_plain.
 Qed.
+
+(* ====================== the complete response table (C03 / C10) ====================== *)
+Section Table.
+  Variable matches : nat -> list N -> bool.
+  Variable rules : list rule.
+  Variable ecs : bool.
+  Variable up : nat -> res (list N) -> uout.
+  Notation handle' := (handle matches rules ecs up).
+
+  (* what [handle] returns for a supported query, by cases of the rule decision and the upstream outcome *)
+  Theorem handle_table m client q qs : unsupported m = false -> m_qs m = q :: qs ->
+    let r := fst (handle' m client) in let eff := snd (handle' m client) in
+    match decide matches rules (q_name (lower_q q)) with
+    | ARefused => h_rcode (m_hdr r) = RCodeRefused /\ m_qs r = [lower_q q] /\ m_an r = [] /\ m_ns r = [] /\ eff = []
+    | AReject rc => h_rcode (m_hdr r) = rc /\ m_qs r = [lower_q q] /\ m_an r = [] /\ m_ns r = [] /\ eff = []
+    | AForward u =>
+      match pack_req ecs (lower_q q) client with
+      | Ok w =>
+        eff = [EQuery u (Ok w)] /\
+        match up u (Ok w) with
+        | UFail => h_rcode (m_hdr r) = RCodeServFail /\ m_qs r = [lower_q q] /\ m_an r = [] /\ m_ns r = []
+        | UReply rep => h_rcode (m_hdr r) = h_rcode (m_hdr rep) /\ m_qs r = m_qs rep /\
+                        m_an r = m_an rep /\ m_ns r = m_ns rep /\
+                        h_aa (m_hdr r) = h_aa (m_hdr rep) /\ h_tc (m_hdr r) = h_tc (m_hdr rep) /\
+                        h_ad (m_hdr r) = h_ad (m_hdr rep) /\ h_cd (m_hdr r) = h_cd (m_hdr rep)
+        end
+      | _ => h_rcode (m_hdr r) = RCodeServFail /\ eff = []
+      end
+    end.
+  Proof.
+    intros Hu Hq. cbv zeta.
+    destruct (handle_supported matches rules ecs up m client Hu) as (q' & qs' & Hq' & ->).
+    rewrite Hq in Hq'. inversion Hq'; subst q' qs'. cbn [fst snd].
+    pose proof (handle_req_table matches rules ecs up (lower_q q) client) as T.
+    destruct (decide matches rules (q_name (lower_q q))) as [rc|u|].
+    - rewrite T. cbn [fst snd]. destruct (has_opt m); cbn; auto.
+    - destruct (pack_req ecs (lower_q q) client) as [w| | |].
+      + destruct (up u (Ok w)) as [rep|]; rewrite T; cbn [fst snd]; (split; [reflexivity|]);
+          destruct (has_opt m); cbn; auto 10.
+      + rewrite T. cbn [fst snd]. destruct (has_opt m); cbn; auto.
+      + rewrite T. cbn [fst snd]. destruct (has_opt m); cbn; auto.
+      + rewrite T. cbn [fst snd]. destruct (has_opt m); cbn; auto.
+    - rewrite T. cbn [fst snd]. destruct (has_opt m); cbn; auto.
+  Qed.
+
+  (* an unsupported query: NOTIMP, at most the first question copied, nothing forwarded *)
+  Theorem handle_unsupported m client : unsupported m = true ->
+    let r := fst (handle' m client) in
+    h_rcode (m_hdr r) = RCodeNotImp /\ m_qs r = firstn 1 (m_qs m) /\ m_an r = [] /\ m_ns r = [] /\ m_ar r = [] /\
+    snd (handle' m client) = [].
+  Proof. intros Hu. unfold handle. rewrite Hu. cbn. auto 10. Qed.
+
+  (* at most one upstream query per client query, and only to the selected upstream *)
+  Theorem handle_effects m client : length (snd (handle' m client)) <= 1 /\
+    forall u w, In (EQuery u w) (snd (handle' m client)) ->
+      unsupported m = false /\ exists q qs, m_qs m = q :: qs /\
+        decide matches rules (q_name (lower_q q)) = AForward u /\ w = pack_req ecs (lower_q q) client.
+  Proof.
+    destruct (unsupported m) eqn:Hu.
+    - destruct (handle_unsupported m client Hu) as (_ & _ & _ & _ & _ & ->). split; [cbn; lia|intros ? ? []].
+    - destruct (handle_supported matches rules ecs up m client Hu) as (q & qs & Hq & ->). cbn [snd].
+      pose proof (handle_req_table matches rules ecs up (lower_q q) client) as T.
+      destruct (decide matches rules (q_name (lower_q q))) as [rc|u|] eqn:Ed.
+      + rewrite T. cbn. split; [lia|intros ? ? []].
+      + destruct (pack_req ecs (lower_q q) client) as [w| | |] eqn:Ep.
+        * assert (snd (handle_req matches rules ecs up (lower_q q) client) = [EQuery u (Ok w)]) as ->.
+          { destruct (up u (Ok w)); now rewrite T. }
+          split; [cbn; lia|]. intros u' w' [H|[]]. inversion H; subst. split; [reflexivity|].
+          exists q, qs. rewrite Ep. auto.
+        * rewrite T. cbn. split; [lia|intros ? ? []].
+        * rewrite T. cbn. split; [lia|intros ? ? []].
+        * rewrite T. cbn. split; [lia|intros ? ? []].
+      + rewrite T. cbn. split; [lia|intros ? ? []].
+  Qed.
+End Table.
+
+(* exactly one write per query on every listener kind, for a handled query and for a refused one *)
+Theorem respond_one l q r : length (respond l q r) = 1. Proof. reflexivity. Qed.
+Theorem refuse_one l q : length (refuse l q) = 1. Proof. reflexivity. Qed.
